@@ -5,7 +5,10 @@ use std::collections::BTreeMap;
 use std::sync::Mutex;
 use std::time::Instant;
 
-pub const VERIF_ROOT: &str = "/verif";
+/// Root of the verification tree: the driver exports VERIF_ROOT (its own directory).
+pub fn verif_root() -> String {
+    std::env::var("VERIF_ROOT").unwrap_or_else(|_| "/verif".to_string())
+}
 
 pub struct Report {
     pub property: String,
@@ -39,7 +42,7 @@ pub struct Finding {
 }
 
 pub fn load_findings(property: &str) -> Vec<Finding> {
-    let path = format!("{}/known_findings.json", VERIF_ROOT);
+    let path = format!("{}/known_findings.json", verif_root());
     let txt = match std::fs::read_to_string(&path) {
         Ok(t) => t,
         Err(_) => return vec![],
@@ -142,7 +145,7 @@ impl Report {
             return;
         }
         let n = g.violation_files.len();
-        let dir = format!("{}/replays", VERIF_ROOT);
+        let dir = format!("{}/replays", verif_root());
         let _ = std::fs::create_dir_all(&dir);
         let path = format!("{}/{}-{}-{}.json", dir, self.property, self.tier, n);
         let body = json!({"property": self.property, "kind": kind, "detail": detail});
@@ -186,7 +189,7 @@ impl Report {
             "wall_s": self.start.elapsed().as_secs_f64(),
             "violations": g.violations,
         });
-        let out = std::env::var("VERIF_EVIDENCE_OUT").unwrap_or_else(|_| format!("{}/evidence/{}.json", VERIF_ROOT, self.property));
+        let out = std::env::var("VERIF_EVIDENCE_OUT").unwrap_or_else(|_| format!("{}/evidence/{}.json", verif_root(), self.property));
         if let Some(p) = std::path::Path::new(&out).parent() {
             let _ = std::fs::create_dir_all(p);
         }
